@@ -485,6 +485,14 @@ func (sc *specCtx) field(b *val, name string) (*val, error) {
 }
 
 func (sc *specCtx) index(b, idx *val) (*val, error) {
+	if b.k == kOpaque && b.ty != nil {
+		if mt, ok := mapModelled(b.ty); ok && sc.fc != nil {
+			if v, _, ok := sc.fc.mapGet(sc.h, mt, b, idx, sc.ag()); ok {
+				return v, nil // m[k]: the stored value, or the zero value when absent
+			}
+		}
+		return nil, fmt.Errorf("index on a map that is not modelled (%s)", b.ty)
+	}
 	if idx.k != kInt {
 		return nil, fmt.Errorf("non-integer index")
 	}
@@ -1025,6 +1033,43 @@ func (sc *specCtx) call(x *ast.CallExpr) (*val, error) {
 			return nil, fmt.Errorf("%s is not loop-carried", vi.Name)
 		}
 		return &val{k: kBool, t: []string{fmt.Sprintf("(or (= %s %s) (>= %s %s))", cur.t[0], ent.t[0], cur.t[0], sc.fc.loopEntryAC[sc.loopHdr])}}, nil
+	case "loopfresh":
+		// loopfresh(e): the reference e is nil or designates an object allocated since loop entry
+		if sc.loopHdr == nil || len(x.Args) != 1 {
+			return nil, fmt.Errorf("loopfresh(e) is only meaningful in a loop invariant")
+		}
+		as, err := evArgs()
+		if err != nil {
+			return nil, err
+		}
+		r := ""
+		switch as[0].k {
+		case kPtr, kSlice, kOpaque:
+			r = as[0].t[0]
+		case kIface:
+			r = as[0].t[1]
+		default:
+			return nil, fmt.Errorf("loopfresh expects a reference")
+		}
+		return &val{k: kBool, t: []string{fmt.Sprintf("(or (= %s 0) (>= %s %s))", r, r, sc.fc.loopEntryAC[sc.loopHdr])}}, nil
+	case "has":
+		// has(m, k): key k is present in map m
+		as, err := evArgs()
+		if err != nil {
+			return nil, err
+		}
+		if len(as) != 2 || as[0].k != kOpaque || as[0].ty == nil {
+			return nil, fmt.Errorf("has(m, k) expects a map")
+		}
+		mt, ok := mapModelled(as[0].ty)
+		if !ok || sc.fc == nil {
+			return nil, fmt.Errorf("has(m, k): map type %s is not modelled", as[0].ty)
+		}
+		_, pres, ok := sc.fc.mapGet(sc.h, mt, as[0], as[1], sc.ag())
+		if !ok {
+			return nil, fmt.Errorf("has(m, k): key kind not modelled")
+		}
+		return &val{k: kBool, t: []string{pres}}, nil
 	case "fresh":
 		// fresh(x): x designates an object allocated during the call (not visible to the caller before)
 		as, err := evArgs()
